@@ -3,6 +3,7 @@ package goat
 import (
 	"context"
 	"fmt"
+	"math"
 	"reflect"
 	"strconv"
 	"strings"
@@ -694,9 +695,20 @@ func parseGrpcTimeout(timeout string) (time.Duration, bool) {
 	}
 	suffix := timeout[len(timeout)-1]
 
-	val, err := strconv.ParseInt(timeout[:len(timeout)-1], 10, 64)
-	if err != nil {
+	// The value is ASCII digits only (no sign, no spaces), see the gRPC wire spec.
+	digits := timeout[:len(timeout)-1]
+	if digits == "" {
 		return 0, false
+	}
+	for i := 0; i < len(digits); i++ {
+		if digits[i] < '0' || digits[i] > '9' {
+			return 0, false
+		}
+	}
+	val, err := strconv.ParseInt(digits, 10, 64)
+	if err != nil {
+		// only a range error is possible here: saturate
+		val = math.MaxInt64
 	}
 	getUnit := func(suffix byte) time.Duration {
 		switch suffix {
@@ -721,6 +733,11 @@ func parseGrpcTimeout(timeout string) (time.Duration, bool) {
 		return 0, false
 	}
 
+	// Saturate rather than wrap: "99999999H" must not turn into a short or
+	// negative timeout.
+	if val > math.MaxInt64/int64(unit) {
+		return time.Duration(math.MaxInt64), true
+	}
 	return time.Duration(val) * unit, true
 }
 
